@@ -437,7 +437,7 @@ func genTest(mode string, treeDepth int, batchSize uint32) string {
 
 func main() {
 	seed := flag.Int64("seed", 1, "seed")
-	n := flag.Int("n", 200, "parameter sets per mode")
+	n := flag.Int("n", 100, "parameter sets per mode")
 	flag.Parse()
 	g := gen.New(*seed)
 	for i := 0; i < *n; i++ {
